@@ -214,3 +214,7 @@ mod tests {
         assert_eq!(DEFAULT_INITIAL_RTT * 3, DEFAULT_SYNC_PERIOD);
     }
 }
+
+#[cfg(all(aws_s2n_quic_verif, any(test, all(kani, feature = "testing"))))]
+#[path = "/verif/harness/transport/periodic_sync.rs"]
+mod verif;
